@@ -62,7 +62,14 @@ fn get_comment_style(text: &str) -> CommentStyle {
 fn get_follow_leading(text: &str) -> Option<usize> {
     text.lines()
         .skip(1)
-        .map(|line| line.chars().position(|c| c != ' ').unwrap_or(usize::MAX))
+        .map(|line| {
+            if line.trim().is_empty() {
+                // A line of nothing but blanks ends up empty, whatever the blanks are.
+                usize::MAX
+            } else {
+                line.chars().position(|c| c != ' ').unwrap_or(usize::MAX)
+            }
+        })
         .min()
 }
 
@@ -75,7 +82,7 @@ fn align_multiline<'a>(arena: &'a Arena<'a>, text: &'a str) -> ArenaDoc<'a> {
             doc += line;
         } else {
             doc += arena.hardline();
-            if line.len() > leading {
+            if !line.trim().is_empty() {
                 doc += &line[leading..]; // Remove line prefix
             } // otherwise this line is blank
         }
